@@ -37,7 +37,7 @@ pub fn model(input: &str, sep: &str, lowercase: bool, keep_zeros: bool) -> Strin
         .join(sep)
 }
 
-/// Well-formedness of any output for separator `sep` (single non-alphanumeric ASCII char).
+/// Well-formedness of any output for separator `sep` (one non-alphanumeric character, ASCII or not).
 pub fn well_formed(out: &str, sep: char, lowercase: bool, keep_zeros: bool) -> Result<(), String> {
     if out.is_empty() {
         return Ok(());
@@ -64,9 +64,10 @@ pub fn well_formed(out: &str, sep: char, lowercase: bool, keep_zeros: bool) -> R
 /// segments.  Any reasonable truncation policy is in this set; a corrupting one is not.
 pub fn bounded_ok(out: &str, input: &str, sep: char, lowercase: bool, keep_zeros: bool, m: usize) -> bool {
     let f = model(input, &sep.to_string(), lowercase, keep_zeros);
-    let fb = f.as_bytes(); // ASCII by construction
-    for k in 0..=m.min(fb.len()) {
-        let cut = &f[..k];
+    // the separator may be a multi-byte character: cut by characters
+    let idx: Vec<usize> = f.char_indices().map(|(i, _)| i).chain([f.len()]).collect();
+    for k in 0..=m.min(idx.len() - 1) {
+        let cut = &f[..idx[k]];
         let t = cut.trim_matches(sep);
         let fixed = if keep_zeros {
             t.to_string()
